@@ -11,7 +11,7 @@ Reference computations in the harness run inside `faults.disarmed()`.
 """
 import contextlib
 
-_state = {'plan': None}
+_state = {'plan': None, 'observe': None}
 
 
 class InjectedFault(Exception):
@@ -70,6 +70,56 @@ def wrap_mixture(mixture):
     return mixture
 
 
+# Passive observation of S3 (no behaviour change): did a solver leave through its iteration cap?
+# thermosteam calls its solvers with checkiter=False, so a capped solver returns silently.
+OBSERVED = ('aitken', 'wegstein', 'IQ_interpolation')
+
+
+def _observed_call(obs, name, inner, args, kwargs):
+    f = args[0]
+    last = {'n': 0, 'x': None, 'y': None}
+
+    def g(x, *a):
+        y = f(x, *a)
+        last['n'] += 1
+        last['x'] = x
+        last['y'] = y
+        return y
+    ret = inner(g, *args[1:], **kwargs)
+    obs['calls'] += 1
+    capped = False
+    try:
+        if name in ('aitken', 'wegstein'):
+            # a converged exit returns the last value f produced; the cap exit returns a fresh extrapolation
+            capped = last['n'] > 0 and ret is not last['y']
+        else:
+            # IQ_interpolation(f, x0, x1, y0, y1, x, xtol, ytol, args, maxiter, ...)
+            names = ('x0', 'x1', 'y0', 'y1', 'x', 'xtol', 'ytol', 'args', 'maxiter')
+            kw = dict(zip(names, args[1:]))
+            kw.update(kwargs)
+            maxiter = kw.get('maxiter', 50)
+            ytol = kw.get('ytol', 5e-8)
+            y = last['y']
+            capped = last['n'] >= maxiter and not (y is not None and abs(float(y)) < ytol)
+    except Exception:
+        capped = False
+    if capped:
+        obs['cap_hits'].append([name, last['n']])
+    obs['outer_capped'] = capped         # the call that finishes last is the outermost one
+    return ret
+
+
+@contextlib.contextmanager
+def observing():
+    prev = _state.get('observe')
+    rec = {'calls': 0, 'cap_hits': [], 'outer_capped': False}
+    _state['observe'] = rec
+    try:
+        yield rec
+    finally:
+        _state['observe'] = prev
+
+
 SOLVERS = ('aitken', 'aitken_secant', 'IQ_interpolation', 'wegstein', 'fixed_point', 'secant',
            'bisection', 'false_position')
 _installed = {}
@@ -91,7 +141,10 @@ def install_solver_seams():
                     if plan['count'] >= plan['nth'] and (plan.get('every') or not plan['fired']):
                         plan['fired'] = True
                         _raise(plan, 'solver ' + name)
-                return inner(*args, **kwargs)
+                obs = _state.get('observe')
+                if obs is None or not args or name not in OBSERVED:
+                    return inner(*args, **kwargs)
+                return _observed_call(obs, name, inner, args, kwargs)
             seam.__name__ = name
             seam.__wrapped__ = inner
             return seam
